@@ -9,7 +9,7 @@ def cases(tier, seed):
     rng = random.Random(seed + 20)
     th = tier == 'thorough'
     cs = []
-    structs = [([3], [2]), ([1], [3]), ([2, 3], [3, 1]), ([1, 2], [2, 2]), ([3, 2], [1, 2]), ([2, 1, 2], [1, 3, 2]), ([2, 2, 2], [2, 1, 1])]
+    structs = [([3], [2]), ([1], [3]), ([2, 3], [3, 1]), ([1, 2], [2, 2]), ([3, 2], [1, 2]), ([2, 1, 2], [1, 3, 2]), ([2, 2, 2], [2, 1, 1]), ([1, 1, 3], [2, 1, 2]), ([1, 3], [3, 2])]
     if th:
         structs += [([2, 3, 2], [3, 2, 1]), ([2, 1, 2, 2], [1, 2, 2, 1]), ([4, 2], [2, 5]), ([5], [4]), ([3, 4], [5, 1]), ([2, 2, 2, 2], [2, 1, 2, 1]), ([5, 2, 1], [1, 2, 3]), ([1, 1], [4, 4])]
     for sin, sout in structs:
@@ -25,6 +25,8 @@ def cases(tier, seed):
                     cs.append({'scen': 'tt_layer', 's': {'size_in': sin, 'size_out': sout, 'rank': rank, 'batch': batch, 'init': init,
                                                          'dtype': 'float64', 'call': len(batch) % 2 == 0}})
         cs.append({'scen': 'tt_layer', 's': {'size_in': sin, 'size_out': sout, 'rank': [1] + [2] * (d - 1) + [1], 'batch': [2], 'init': 'He', 'dtype': 'float32'}})
+        for mode in ('eval', 'eval_then_update', 'load_state_dict'):
+            cs.append({'scen': 'tt_layer', 's': {'size_in': sin, 'size_out': sout, 'rank': [1] + [2] * (d - 1) + [1], 'batch': [2], 'init': 'Glo' if mode == 'eval' else 'He', 'dtype': 'float64', 'mode': mode, 'call': True}})
     return cs
 
 
